@@ -238,6 +238,22 @@ func checkC20(r *Run) {
 			run(c0, s)
 		}
 	}
+	// many near misses before the address: 1, 2, 4, ..., 16384 repetitions (and one less / one more) of a fragment that
+	// has dots or digit groups but never starts an address, then an address (however many candidates were tried
+	// before, the search goes on)
+	for _, frag := range []string{".", "a.", "1.", "1.2.", "999.", "1.2.3.", "1.2.3.x", "..1", "256.1.1.1 ", "1.2.3.256,"} {
+		for k := 1; k <= 16384; k *= 2 {
+			for _, kk := range []int{k - 1, k, k + 1} {
+				if kk < 1 || kk*len(frag) > 140000 {
+					continue
+				}
+				for _, a := range []string{"7.7.7.7", " 10.20.30.40;tail"} {
+					run(c0, []byte(strings.Repeat(frag, kk)+a))
+				}
+				run(c0, []byte(strings.Repeat(frag, kk)))
+			}
+		}
+	}
 	r.St.merge(c0.st)
 }
 
